@@ -18,6 +18,10 @@ extern "C" void harness_main() {
   semantic::RSModel model;
   hv::BuildContext(model);
   model.Emplace(semantic::CstType::structured, "X1\xC3\x97\xE2\x84\xAC(X1)");   // S3
+  model.Emplace(semantic::CstType::function, "[\xCE\xB1\xE2\x88\x88\xE2\x84\xAC(X1)] F1[\xCE\xB1\xE2\x88\xAAX1, debool({1})]\xE2\x88\xA9\xCE\xB1");   // F2: nested call
+  // F3, F4: bodies whose ROOT is a construct that the normaliser rewrites (tuple pattern, multi-variable quantifier)
+  model.Emplace(semantic::CstType::function, "[\xCE\xB1\xE2\x88\x88\xE2\x84\xAC(X1\xC3\x97X1)] I{(\xCE\xB6,\xCE\xBE) | (\xCE\xBE,\xCE\xB6):\xE2\x88\x88\xCE\xB1}");
+  model.Emplace(semantic::CstType::predicate, "[\xCE\xB1\xE2\x88\x88\xE2\x84\xAC(X1)] \xE2\x88\x80\xCE\xBE,\xCE\xB6\xE2\x88\x88\xCE\xB1 \xCE\xBE=\xCE\xB6");   // P2
   auto uid = [&](const char* a) { return model.Core().FindAlias(a).value(); };
   const std::string text = hv::GenExpression();
   auto auditor = model.RSLang().MakeAuditor();
